@@ -741,6 +741,8 @@ fn observe(ext: &mut ExtensionPair<'_>, header: &BlockHeader, rng_flip: u64) -> 
 
 #[derive(Default)]
 struct XStats {
+	discarded: u64,
+	discarded_old_chunk: u64,
 	histories: u64,
 	blocks: u64,
 	growth_blocks: u64,
@@ -1018,6 +1020,118 @@ impl XChain {
 		);
 	}
 
+	/// A fork block processed and then discarded, the way `pipe::process_block` treats a block
+	/// that does not become head (`force_rollback`) or that fails late (`Err` out of the closure):
+	/// inside ONE `txhashset::extending` call rewind `depth` blocks, apply a sibling with other
+	/// spends, then roll everything back. Nothing may remain: the accumulator the TxHashSet holds
+	/// must still be the one of the head state.
+	fn discarded_fork(&mut self, out: &mut Out, st: &mut XStats, rng: &mut Rng, depth: usize, fail: bool) {
+		let target_h = self.headers.len() - 1 - depth;
+		let target = self.headers[target_h].clone();
+		// the state at the fork point: undo the bookkeeping of the last `depth` blocks on a copy
+		let mut unspent_t = self.unspent.clone();
+		let mut n_t = self.n;
+		for b in self.recs.iter().rev().take(depth) {
+			unspent_t = unspent_t.into_iter().filter(|x| *x < b.n_before).collect();
+			for s in &b.spent {
+				if *s < b.n_before {
+					unspent_t.insert(*s);
+				}
+			}
+			n_t = b.n_before;
+		}
+		if n_t == 0 {
+			return;
+		}
+		// the sibling spends old-chunk outputs that the branch being kept did NOT spend (they are
+		// still unspent at the head too) and leaves alone what the kept branch spent
+		let cands: Vec<u64> = unspent_t.iter().cloned().filter(|x| self.unspent.contains(x) && *x + 1 < n_t).collect();
+		let mut spent: Vec<u64> = vec![];
+		for _ in 0..rng.range(1, 4) {
+			if cands.is_empty() {
+				break;
+			}
+			let c = cands[rng.below(cands.len() as u64) as usize];
+			if !spent.contains(&c) {
+				spent.push(c);
+			}
+		}
+		if let Some(first) = cands.first() {
+			if rng.chance(1, 2) && !spent.contains(first) {
+				spent.push(*first);
+			}
+		}
+		spent.sort_unstable();
+		let k = rng.range(1, 5);
+		let proof = RangeProof {
+			proof: [0; MAX_PROOF_SIZE],
+			plen: MAX_PROOF_SIZE,
+		};
+		let outputs: Vec<Output> = (0..k)
+			.map(|_| {
+				self.counter += 1;
+				Output::new(OutputFeatures::Plain, fake_commit(self.counter), proof)
+			})
+			.collect();
+		let inputs: Vec<Input> = spent
+			.iter()
+			.map(|i| Input::new(OutputFeatures::Plain, self.commits[*i as usize]))
+			.collect();
+		let body = xerr(
+			TransactionBody::init(Inputs::from(&inputs[..]), &outputs, &[], false),
+			"TransactionBody::init",
+		);
+		let mut header = BlockHeader::default();
+		header.version = HeaderVersion(5);
+		header.height = target.height + 1;
+		header.prev_hash = target.hash();
+		self.counter += 1;
+		header.pow.nonce = self.counter;
+		*header.pow.proof.nonces.last_mut().unwrap() = self.counter;
+		header.output_mmr_size = pmmr::insertion_to_pmmr_index(n_t + k);
+		header.kernel_mmr_size = 0;
+		let block = Block { header, body };
+		self.log.push(format!(
+			"discarded fork block on h={} (depth {}) k={} spent={} ({})",
+			target_h,
+			depth,
+			k,
+			nat_list(&spent),
+			if fail { "closure fails" } else { "force_rollback" }
+		));
+		{
+			let mut batch = xerr(self.store.batch(), "batch");
+			let r = txhashset::extending(&mut self.header_pmmr, self.txhs.as_mut().unwrap(), &mut batch, |ext, batch| {
+				ext.extension.rewind(&target, batch)?;
+				ext.extension.apply_block(&block, ext.header_extension, batch)?;
+				if fail {
+					return Err(grin_chain::Error::Other("late failure of a fork block".into()));
+				}
+				ext.extension.force_rollback();
+				Ok(())
+			});
+			if r.is_ok() == fail {
+				eprintln!("bitmap ext: discarded fork: unexpected result {:?}", r.map(|_| ()));
+				std::process::exit(3);
+			}
+			// the batch is dropped, nothing is committed
+		}
+		let head = self.headers.last().unwrap().clone();
+		let flip = rng.next();
+		let obs = xerr(
+			txhashset::extending_readonly(&mut self.header_pmmr, self.txhs.as_mut().unwrap(), |ext, _batch| {
+				observe(ext, &head, flip)
+			}),
+			"extending_readonly",
+		);
+		st.discarded += 1;
+		if spent.iter().any(|x| *x / NBITS < (self.n - 1) / NBITS) {
+			st.discarded_old_chunk += 1;
+		}
+		// same observation as after a restart: the model's state is unchanged
+		self.report(out, st, "bitmap reopen", obs);
+	}
+
 	fn restart(&mut self, out: &mut Out, st: &mut XStats, rng: &mut Rng) {
 		self.txhs = None; // drop: closes the backend files
 		self.txhs = Some(xerr(
@@ -1145,10 +1259,14 @@ fn ext(out: &mut Out, rng: &mut Rng, thorough: bool) {
 				let extra = if rng.chance(1, 3) && x.recs.len() - 1 >= 3 { 1 } else { 0 };
 				x.rewind(out, &mut st, rng, 2 + extra);
 				since_rewind = 1;
-			} else if kind < 18 {
+			} else if kind < 16 {
 				let depth = rng.range(1, (avail as u64).min(4)) as usize;
 				x.rewind(out, &mut st, rng, depth);
 				since_rewind = 1;
+			} else if kind < 18 {
+				let depth = rng.range(1, (avail as u64).min(3)) as usize;
+				let fail = rng.chance(1, 3);
+				x.discarded_fork(out, &mut st, rng, depth, fail);
 			} else {
 				x.restart(out, &mut st, rng);
 			}
@@ -1163,6 +1281,10 @@ fn ext(out: &mut Out, rng: &mut Rng, thorough: bool) {
 	out.raw(&format!(
 		"#STAT ext max leaves={} max chunks={} rewinds shrinking across a chunk boundary={} multi-block rewinds where a NEWER rewound block touched an OLDER chunk than the oldest rewound block={}",
 		st.max_n, st.max_chunks, st.rewinds_cross, st.rewinds_newer_older_chunk
+	));
+	out.raw(&format!(
+		"#STAT ext fork blocks processed and discarded inside one extending() call (force_rollback or late error)={} of which spending in an older chunk than the last={}",
+		st.discarded, st.discarded_old_chunk
 	));
 	out.raw(&format!("#STAT ext spend patterns {:?}", st.pat));
 	out.raw(&format!(
